@@ -344,7 +344,7 @@ func (rs *runState) describeValue(b []byte) string {
 				}
 				rs.noteDates(resp.Header)
 				return "ent\t" + hx(meta[0]) + "\t" + tns(meta[1]) + "\t" + tns(meta[2]) + "\t" +
-					strconv.Itoa(resp.StatusCode) + "\t" + encHeader(resp.Header) + "\t" + hx(string(body)) + "\t" + be
+					strconv.Itoa(resp.StatusCode) + "\t" + encHeader(resp.Header) + "\t" + hx(bodyRepr(string(body))) + "\t" + be
 			}
 		}
 	}
@@ -554,7 +554,7 @@ func runHistory(t *testing.T, h *History) (lines []string) {
 						fr = append(fr, [2]string{"Content-Length", strconv.Itoa(len(body))})
 					}
 				}
-				rs.emit("I\tREPLY\t%d\t%d\t%s\t%d\t%s\t%s\t%d\t%d", n, k, kind, rp.Status, encHdrList(fr), hx(body), rp.DelayNs, rp.BodyFail)
+				rs.emit("I\tREPLY\t%d\t%d\t%s\t%d\t%s\t%s\t%d\t%d", n, k, kind, rp.Status, encHdrList(fr), hx(bodyRepr(body)), rp.DelayNs, rp.BodyFail)
 				rs.noteDates(hdrToHTTP(rp.Hdr))
 				for _, hn := range []string{"Location", "Content-Location"} {
 					for _, p := range rp.Hdr {
@@ -667,7 +667,7 @@ func runHistory(t *testing.T, h *History) (lines []string) {
 						}
 						resp.Body.Close()
 					}
-					rs.emit("O\tRES\t%d\t%d\t%d\tresp\t%d\t%s\t%s\t%s", n, t0, t1, resp.StatusCode, hdrs, hx(string(body)), be)
+					rs.emit("O\tRES\t%d\t%d\t%d\tresp\t%d\t%s\t%s\t%s", n, t0, t1, resp.StatusCode, hdrs, hx(bodyRepr(string(body))), be)
 				}
 				if after := snap(req); after != before {
 					rs.emit("O\tREQCMP\t%d\tchanged", n)
